@@ -2,6 +2,7 @@
    execute_command arms never reach a panic site, for ALL parameter values, and keep the canvas at width x height pixels with
    pen numbers below 16 (so get_picture_data indexes pen_colors in range). *)
 From Coq Require Import NArith ZArith List Bool Lia Arith.
+
 From IE Require Import Gen.IgsGen Model.RipTok Model.BgiKernel Model.IgsTok Model.IgsKernel Proofs.RipTokProofs Proofs.BgiProofs Proofs.IgsTokProofs.
 Import ListNotations.
 Local Open Scope Z_scope.
@@ -216,7 +217,18 @@ Proof.
   { (* ScreenClear *)
     unfold igs_blank. chk_i. cbn [xlift XPost]. unfold InvE, e_w, e_h in *. simpl. rewrite repeat_length.
     split; [exact R|split; [lia|split; [exact P|split; [exact F|split; [apply repeat_pens; exact PX2|exact PL]]]]]. }
-  destruct (c =? 82)%N; [|destruct (lookup c IGS_ARITY) as [n|]; [destruct (negb (Z.of_nat (length ps) =? n)); [exact I|exact Logic.I]|exact Logic.I]].
+  destruct (c =? 82)%N; [|
+    destruct (c =? 72)%N; [destruct (Nat.eqb (length ps) 1) eqn:EL; cbn [negb xlift XPost]; [apply Nat.eqb_eq in EL; destruct (par_ok ps 0 ltac:(lia)) as [p0 E0]; rewrite E0; exact I|exact I]|];
+    destruct (c =? 77)%N; [destruct (Nat.eqb (length ps) 1) eqn:EL; cbn [negb xlift XPost]; [apply Nat.eqb_eq in EL; destruct (par_ok ps 0 ltac:(lia)) as [p0 E0]; rewrite E0; exact I|exact I]|];
+    destruct (c =? 83)%N; [
+      destruct (Nat.eqb (length ps) 4) eqn:EL; cbn [negb xlift XPost]; [|exact I]; apply Nat.eqb_eq in EL;
+      destruct (par_ok ps 0 ltac:(lia)) as [p0 E0]; destruct (par_ok ps 1 ltac:(lia)) as [p1 E1];
+      destruct (par_ok ps 2 ltac:(lia)) as [p2 E2]; destruct (par_ok ps 3 ltac:(lia)) as [p3 E3]; rewrite E0, E1, E2, E3; cbn [bind];
+      destruct ((0 <=? p0) && (p0 <=? 15)) eqn:ER; cbn [negb xlift XPost]; [|exact I];
+      apply andb_true_iff in ER; destruct ER as [R1 R2]; apply Z.leb_le in R1, R2;
+      match goal with |- context [set_nth (e_pens e) ?k ?v] => destruct (set_nth_some (e_pens e) k v ltac:(rewrite PL; lia)) as [pens ES]; rewrite ES end;
+      cbn [xlift XPost]; unfold InvE, e_w, e_h in *; simpl; rewrite (set_nth_length _ _ _ _ ES); auto 8|];
+    destruct (lookup c IGS_ARITY) as [n|]; [destruct (negb (Z.of_nat (length ps) =? n)); [exact I|exact Logic.I]|exact Logic.I]].
   { (* SetResolution *)
     destruct (Nat.eqb (length ps) 2) eqn:EL; cbn [negb xlift XPost]; [|exact I]. apply Nat.eqb_eq in EL.
     destruct (par_ok ps 0 ltac:(lia)) as [p0 E0]. destruct (par_ok ps 1 ltac:(lia)) as [p1 E1]. rewrite E0, E1. cbn [bind].
